@@ -116,11 +116,12 @@ SPEC = dict(
 )
 
 MANIFEST = dict(
-    text='Coq: every row of the traversal model is an allowed reflection inside the shell lying in the traversal\'s asymmetric unit; the expansion used by genhkl_all '
-         'lists each rotated/negated image exactly once (dedup lemma); sysabs = operator extinction on the box for all settings. The model is evaluated in Coq '
-         'against genhkl_unique on every run. One-per-family/completeness: known finding F6 for oblique triclinic/monoclinic and rhombohedral cells, brute force otherwise; '
-         'sorting and the stl column are checked on the implementation (partial).',
-    design_ref='DESIGN.md section 5 C06',
-    note='Trusted: as C05. Partial: fundamental-domain property of the segment tables over Z^3 and sortedness are not proved.',
-    technique='Coq vm_compute + induction on the traversal model + in-Coq evaluation correspondence; brute-force search',
+    text='Coq: every row of the traversal model is an allowed reflection inside the shell lying in the traversal\'s asymmetric unit; for all of Z^3 and every setting '
+         'no two different members of one Laue family lie in the asymmetric unit (generated lia proofs, one goal per group element and pair of segments), so the rows '
+         'never contain two members of a family; the Laue images of the cones cover Z^3 minus 0 and the traversal is complete for monotone metrics (see C05), so there is '
+         'exactly one row per allowed family in the orthorhombic, tetragonal, cubic and hexagonal-axes systems; the expansion used by genhkl_all lists each image once. '
+         'The model is evaluated in Coq against genhkl_unique on every run. Sorting and the stl column are checked on the implementation; completeness elsewhere: known finding F6.',
+    design_ref='DESIGN.md section 5 C06 and section 10',
+    note='Trusted: as C05. Partial: sortedness and the stl column are decided by search only.',
+    technique='Coq: generated lia proofs over Z^3 (fundamental domain) + induction on the traversal model + vm_compute + in-Coq evaluation correspondence; brute-force search',
 )
